@@ -20,6 +20,7 @@ else:
     HEX_TO_BYTE = {(a + b).encode(): bytes.fromhex(a + b) for a in HEX for b in HEX}
 
 ASCII_RE = re.compile("([\x00-\x7f]+)")
+HEX_DIGITS = HEX.encode()
 
 
 def _requote_undecodable_bytes(error):
@@ -50,6 +51,13 @@ def _unquote_impl(string, only_printable=False, unsafe=None):
 
         if b is not None:
             if only_printable and (b < b" " or b == b"\x7f"):
+                append(b"%")
+                append(item)
+            # NOTE: a decoded hex digit must not complete a dangling "%" or "%X"
+            # left by a malformed escape ("%4%41" would become the new escape "%4A")
+            elif b in HEX_DIGITS and (
+                res[-1:] == b"%" or (res[-2:-1] == b"%" and res[-1:] in HEX_DIGITS)
+            ):
                 append(b"%")
                 append(item)
             elif unsafe is not None and b in unsafe:
